@@ -17,3 +17,10 @@ contract("parse:Parser._string_from_codepoint",
     requires=["is_int(codepoint)", "codepoint >= 0", "codepoint <= 1114111", "isinstance(token, Token)"],
     ensures=["result == char(codepoint)"],
     raises_iff=[("JSONPathSyntaxError", "codepoint <= 31")], props=["C09", "C13"])
+
+contract("exceptions:JSONPathError.__str__",
+    requires=["is_exc(self)", "is_none(self.token) or (isinstance(self.token, Token) and is_str(self.token.query) and is_str(self.token.value) and is_int(self.token.index))"],
+    ensures=["implies(is_none(self.token), result == exc_message(self))",
+             "implies(not is_none(self.token), result == exc_message(self) + ', line ' + int_str(int_of(seq(line_col(str_of(self.token.query), self.token.index))[0])) + ', column ' + int_str(int_of(seq(line_col(str_of(self.token.query), self.token.index))[1])))"],
+    raises=[], props=["C19", "C13"],
+    note="the message printed is the constructor's message followed by exactly the line and column of the token's offset in the query text (Token.position)")
